@@ -32,11 +32,25 @@ def _thorough_race(work, res):
     t.run(proofs_ok=not getattr(res, "broken_proof", None))
 
 
+def _reuse_obligation(work, res, tier, proofs_ok):
+    """the history-prefixed scenario families only bite if later waiters really get recycled nodes:
+    record the measured number (GC is switched off in the harness so that sync.Pool keeps them)."""
+    st = res.coverage.get("correspondence", {}).get("cond", {}).get("stats", {})
+    if "waits_after_a_broadcast_on_a_reused_node" in st and not getattr(work, "blackbox", False):
+        n = st["waits_after_a_broadcast_on_a_reused_node"]
+        res.obligation("scenario coverage: %d waits after a Broadcast on the same Cond ran on a re-used pooled node"
+                       % n, n > 0)
+        if n == 0:
+            res.notes.append("C13: no pooled wait node was re-used after a Broadcast in this run; the history "
+                             "families did not exercise recycled nodes (pool removed from the implementation?)")
+
+
 CHECK = generic(
     "C13",
     [dict(harness="cond", area="cond")],
     skel=["syncx/cond.go:" + _FUNCS],
     pregen=_pregen_checkcopy,
+    extra=_reuse_obligation,
     thorough_extra=_thorough_race,
 )
 
